@@ -122,7 +122,7 @@ def run_check(modname, tier, seed, replay=None):
         # longest-first hint: modules may give 'cost' in the case; otherwise keep order
         order = sorted(range(len(jobs)), key=lambda i: -float(cases[i].get('cost', 0)) if isinstance(cases[i], dict) else 0)
         with ctx.Pool(nproc, maxtasksperchild=getattr(mod, 'MAXTASKS', None)) as pool:
-            it = pool.imap_unordered(_worker, [jobs[i] for i in order], chunksize=getattr(mod, 'CHUNK', 1))
+            it = pool.imap_unordered(_worker, [jobs[i] for i in order], chunksize=1)   # chunksize 1: the iterator then supports next(timeout)
             pids0 = set(p.pid for p in pool._pool)
             ndone = 0
             while ndone < len(jobs):
